@@ -1214,10 +1214,328 @@ def _a_read():
              'from_rio_dataset: nodata = default_nodata if is_masked or rio_dataset.nodata is None else rio_dataset.nodata')]
 
 
+def _stmts(fn):
+    """top-level statements of a function without its docstring"""
+    return [st for st in fn.body if not (isinstance(st, ast.Expr) and isinstance(st.value, ast.Constant))]
+
+
+def _raises(stmts, exc):
+    return len(stmts) == 1 and isinstance(stmts[0], ast.Raise) and U(stmts[0].exc).startswith(exc + '(')
+
+
+def _u_kernel():
+    """utils.py validate_kernel_shape: odd in both dimensions, at least 2 elements for gain-offset (a warning below 25), at least
+    one in both dimensions; the shape is returned unchanged"""
+    import re
+    from homonim import utils
+    fn = fn_body(src_of(utils.validate_kernel_shape))
+    st = _stmts(fn)
+    if len(st) != 5 or U(st[0]) != 'kernel_shape = np.array(kernel_shape).astype(int)' or U(st[4]) != 'return tuple(kernel_shape)':
+        raise TranslationError(f'validate_kernel_shape: shape {[U(x)[:60] for x in st]}')
+    m = re.fullmatch(r'not np\.all\(np\.mod\(kernel_shape, (\d+)\) == (\d+)\)', U(st[1].test)) if isinstance(st[1], ast.If) else None
+    if not m or not _raises(st[1].body, 'ValueError') or st[1].orelse:
+        raise TranslationError(f'validate_kernel_shape: parity test `{U(st[1])[:100]}`')
+    mod, rem = m.groups()
+    if not isinstance(st[2], ast.If) or U(st[2].test) != 'model == Model.gain_offset' or len(st[2].body) != 1 or st[2].orelse:
+        raise TranslationError('validate_kernel_shape: gain-offset branch')
+    inner = st[2].body[0]
+    m2 = re.fullmatch(r'np\.prod\(kernel_shape\) < (\d+)', U(inner.test)) if isinstance(inner, ast.If) else None
+    if not m2 or not _raises(inner.body, 'ValueError') or len(inner.orelse) != 1 or not isinstance(inner.orelse[0], ast.If):
+        raise TranslationError('validate_kernel_shape: gain-offset area test')
+    m3 = re.fullmatch(r'np\.prod\(kernel_shape\) < (\d+)', U(inner.orelse[0].test))
+    w = inner.orelse[0].body
+    if not m3 or len(w) != 1 or not U(w[0]).startswith('warnings.warn(') or inner.orelse[0].orelse:
+        raise TranslationError('validate_kernel_shape: small-kernel warning')
+    m4 = re.fullmatch(r'not np\.all\(kernel_shape >= (\d+)\)', U(st[3].test)) if isinstance(st[3], ast.If) else None
+    if not m4 or not _raises(st[3].body, 'ValueError') or st[3].orelse:
+        raise TranslationError(f'validate_kernel_shape: minimum test `{U(st[3])[:100]}`')
+    amin, awarn, kmin = m2.group(1), m3.group(1), m4.group(1)
+    acc = (f'(decide (kh % {mod} = {rem}) && decide (kw % {mod} = {rem}) && !(gainOffset && decide (kh * kw < {amin})) && '
+           f'decide ({kmin} ≤ kh) && decide ({kmin} ≤ kw))')
+    warn = f'(gainOffset && !(decide (kh * kw < {amin})) && decide (kh * kw < {awarn}))'
+    return [('kernel_accepts', '(kh kw : Int) (gainOffset : Bool)', 'Bool', acc, 'validate_kernel_shape: no ValueError is raised'),
+            ('kernel_warns', '(kh kw : Int) (gainOffset : Bool)', 'Bool', warn, 'validate_kernel_shape: the ConfigWarning branch')]
+
+
+def _u_threads():
+    """utils.py validate_threads: 0 means every processor, more than the processors is refused, anything else is kept; the CLI
+    callback and create_block_config both go through it"""
+    from homonim import cli, utils
+    from homonim.fuse import RasterFuse
+    st = [U(x) for x in _stmts(fn_body(src_of(utils.validate_threads)))]
+    want = ['_cpu_count = cpu_count()', 'threads = _cpu_count if threads == 0 else threads']
+    if st[:2] != want or len(st) != 4 or st[3] != 'return threads' or \
+            not st[2].startswith('if threads > _cpu_count:\n    raise ValueError('):
+        raise TranslationError(f'validate_threads: {st}')
+    cb = _stmts(fn_body(src_of(cli._threads_cb)))
+    if len(cb) != 2 or not isinstance(cb[0], ast.Try) or [U(x) for x in cb[0].body] != ['threads = utils.validate_threads(value)'] or \
+            U(cb[1]) != 'return threads' or len(cb[0].handlers) != 1 or not _raises(cb[0].handlers[0].body, 'click.BadParameter'):
+        raise TranslationError('_threads_cb: shape')
+    ret = [U(n.value) for n in ast.walk(fn_body(src_of(RasterFuse.create_block_config))) if isinstance(n, ast.Return)]
+    if ret != ['dict(threads=utils.validate_threads(threads), max_block_mem=max_block_mem)']:
+        raise TranslationError(f'create_block_config returns {ret}')
+    return [('threads_resolve', '(threads cpu : Int)', 'Option Int',
+             '(let t := if threads = 0 then cpu else threads; if cpu < t then none else some t)',
+             'validate_threads: cpu_count if threads == 0 else threads; ValueError if above cpu_count'),
+            ('threads_users', '', 'List String', '["_threads_cb", "create_block_config"]', 'who validates the thread count through validate_threads')]
+
+
+def _u_param_image():
+    """utils.py validate_param_image: band count a non-zero multiple of three, the four FUSE_* tags present, and band descriptions
+    ending (case-insensitively) in gain x n, offset x n, r2 x n"""
+    from homonim import utils
+    fn = fn_body(src_of(utils.validate_param_image))
+    ifs = [n for n in ast.walk(fn) if isinstance(n, ast.If)]
+    ifs.sort(key=lambda n: n.lineno)
+    if len(ifs) != 3 or U(ifs[0].test) != 'not param_filename.exists()' or not _raises(ifs[0].body, 'FileNotFoundError'):
+        raise TranslationError('validate_param_image: existence test')
+    t = ifs[1].test
+    if not (isinstance(t, ast.BoolOp) and isinstance(t.op, ast.Or) and len(t.values) == 3 and U(t.values[0]) == 'param_im.count == 0'
+            and U(t.values[1]) == 'divmod(param_im.count, 3)[1] != 0' and isinstance(t.values[2], ast.UnaryOp)
+            and isinstance(t.values[2].operand, ast.Compare) and U(t.values[2].operand.comparators[0]) == 'set(tags)'
+            and isinstance(t.values[2].operand.ops[0], ast.LtE)) or not _raises(ifs[1].body, 'ImageFormatError'):
+        raise TranslationError(f'validate_param_image: count / tag test `{U(t)}`')
+    tags = sorted(ast.literal_eval(t.values[2].operand.left))
+    if U(the_assign(fn, 'tags')) != 'param_im.tags()':
+        raise TranslationError('validate_param_image: tags')
+    if U(the_assign(fn, 'n_refl_bands')) != 'int(param_im.count / 3)':
+        raise TranslationError('validate_param_image: n_refl_bands')
+    sfx = the_assign(fn, 'suffixes')
+    parts = []
+    node = sfx
+    while isinstance(node, ast.BinOp) and isinstance(node.op, ast.Add):
+        parts.insert(0, node.right)
+        node = node.left
+    parts.insert(0, node)
+    names = []
+    for p in parts:
+        if not (isinstance(p, ast.BinOp) and isinstance(p.op, ast.Mult) and U(p.right) == 'n_refl_bands' and isinstance(p.left, ast.List)
+                and len(p.left.elts) == 1 and isinstance(p.left.elts[0], ast.Constant)):
+            raise TranslationError(f'validate_param_image: suffixes = `{U(sfx)}`')
+        names.append(p.left.elts[0].value)
+    if U(ifs[2].test) != 'not all([desc.lower().endswith(suffix) for suffix, desc in zip(suffixes, param_im.descriptions)])' or \
+            not _raises(ifs[2].body, 'ImageFormatError'):
+        raise TranslationError(f'validate_param_image: description test `{U(ifs[2].test)}`')
+    body = ' ++ '.join(f'List.replicate n "{s}"' for s in names)
+    return [('paramImage_countOk', '(count : Nat)', 'Bool', '(!(count == 0 || count % 3 != 0))', 'validate_param_image: ' + U(t.values[0]) + ' or ' + U(t.values[1])),
+            ('paramImage_requiredTags', '', 'List String', '[' + ', '.join(f'"{x}"' for x in tags) + ']', 'validate_param_image: tags that must be present (sorted)'),
+            ('paramImage_suffixes', '(n : Nat)', 'List String', f'({body})', 'validate_param_image: ' + U(sfx))]
+
+
+def _fstring_parts(node, atoms):
+    if not isinstance(node, ast.JoinedStr):
+        raise TranslationError(f'not an f-string: `{U(node)}`')
+    out = []
+    for v in node.values:
+        if isinstance(v, ast.Constant):
+            out.append('"' + v.value + '"')
+        elif isinstance(v, ast.FormattedValue) and v.format_spec is None and v.conversion == -1 and U(v.value) in atoms:
+            out.append(atoms[U(v.value)])
+        else:
+            raise TranslationError(f'f-string part `{U(v)}`')
+    return out
+
+
+def _u_names():
+    """utils.py create_out_postfix / create_param_filename: the pieces of the output names, in order"""
+    from homonim import utils
+    fn = fn_body(src_of(utils.create_out_postfix))
+    for t, v in (('ext_dict', 'rio.drivers.raster_driver_extensions()'), ('ext_idx', 'list(ext_dict.values()).index(driver)'),
+                 ('ext', 'list(ext_dict.keys())[ext_idx]')):
+        if U(the_assign(fn, t)) != v:
+            raise TranslationError(f'create_out_postfix: `{t}` = `{U(the_assign(fn, t))}`')
+    parts = _fstring_parts(the_assign(fn, 'post_fix'), {'proc_crs.name.upper()': 'procUpper', 'model.upper()': 'modelUpper',
+                                                         'kernel_shape[0]': 'toString kh', 'kernel_shape[1]': 'toString kw', 'ext': 'ext'})
+    if [U(n.value) for n in ast.walk(fn) if isinstance(n, ast.Return)] != ['post_fix']:
+        raise TranslationError('create_out_postfix: return')
+    fn2 = fn_body(src_of(utils.create_param_filename))
+    ret = [n.value for n in ast.walk(fn2) if isinstance(n, ast.Return)]
+    if len(ret) != 1 or not (isinstance(ret[0], ast.Call) and U(ret[0].func) == 'filename.parent.joinpath' and len(ret[0].args) == 1):
+        raise TranslationError('create_param_filename: return')
+    p2 = _fstring_parts(ret[0].args[0], {'filename.stem': 'stem', 'filename.suffix': 'suffix'})
+    return [('names_outPostfixParts', '(procUpper modelUpper : String) (kh kw : Nat) (ext : String)', 'List String', '[' + ', '.join(parts) + ']',
+             'create_out_postfix: the f-string'),
+            ('names_paramFilename', '(stem suffix : String)', 'String', '(' + ' ++ '.join(p2) + ')', 'create_param_filename: the f-string')]
+
+
+def _u_nonalpha():
+    """utils.py get_nonalpha_bands (1-based indices of the bands whose colour interpretation is not alpha) and the candidate
+    test of _get_band_info (additionally not a geedim *_MASK / *_DIST band)"""
+    from homonim import utils
+    from homonim.matched_pair import MatchedPairReader
+    fn = fn_body(src_of(utils.get_nonalpha_bands))
+    if U(the_assign(fn, 'bands')) != 'tuple([bi + 1 for bi in range(im.count) if im.colorinterp[bi] != ColorInterp.alpha])':
+        raise TranslationError(f"get_nonalpha_bands: `{U(the_assign(fn, 'bands'))}`")
+    fn2 = fn_body(src_of(MatchedPairReader._get_band_info))
+    na = the_assign(fn2, 'non_alpha_bands')
+    comp = na.args[0] if isinstance(na, ast.Call) and U(na.func) == 'np.array' and len(na.args) == 1 else None
+    if not (isinstance(comp, ast.ListComp) and U(comp.elt) == 'i + 1' and len(comp.generators) == 1 and
+            U(comp.generators[0].iter) == 'range(im.count)' and len(comp.generators[0].ifs) == 1):
+        raise TranslationError(f'_get_band_info: non_alpha_bands = `{U(na)}`')
+    cand = bool_expr(comp.generators[0].ifs[0], {'im.colorinterp[i] != ColorInterp.alpha': '(!alpha)', 'im.descriptions[i]': 'hasDescr',
+                                                  "im.descriptions[i].endswith('_MASK')": 'endsMask', "im.descriptions[i].endswith('_DIST')": 'endsDist'})
+    if U(the_assign(fn2, 'refl_bands')) != "np.array([bi for bi in non_alpha_bands if 'center_wavelength' in im.tags(bi)])":
+        raise TranslationError('_get_band_info: refl_bands')
+    return [('bands_nonAlpha', '(isAlpha : List Bool)', 'List Nat',
+             '(((List.range isAlpha.length).filter fun bi => !(isAlpha.getD bi false)).map (· + 1))', 'get_nonalpha_bands'),
+            ('bands_isCandidate', '(alpha hasDescr endsMask endsDist : Bool)', 'Bool', cand, '_get_band_info: the filter of non_alpha_bands')]
+
+
+def _b_info():
+    """matched_pair.py _get_band_info: the order of the refusals, the order in which the default selection is tried, when and which
+    standard RGB wavelengths are assumed"""
+    from fractions import Fraction
+    from homonim.matched_pair import MatchedPairReader
+    fn = fn_body(src_of(MatchedPairReader._get_band_info))
+    top = [st for st in _stmts(fn) if isinstance(st, ast.If)]
+    tests = [U(st.test) for st in top]
+    want = ['bands is not None and (not set(bands).issubset(range(1, im.count + 1)))',
+            'bands is not None and (not set(bands).issubset(non_alpha_bands))',
+            'bands is not None and len(refl_bands) and (not set(bands).issubset(refl_bands))',
+            'bands is not None and len(bands) > 0', 'len(non_alpha_bands) == 3']
+    if tests != want:
+        raise TranslationError(f'_get_band_info: top-level tests {tests}')
+    if not any(isinstance(x, ast.Raise) and U(x.exc).startswith('ValueError(') for x in top[0].body) or \
+            not any(isinstance(x, ast.Raise) and U(x.exc).startswith('ValueError(') for x in top[1].body) or \
+            any(isinstance(x, ast.Raise) for x in ast.walk(top[2])):
+        raise TranslationError('_get_band_info: the two refusals / the warning')
+    chain, node = [], top[3]
+    while True:
+        chain.append((U(node.test), [U(x) for x in node.body if isinstance(x, ast.Assign) and U(x.targets[0]) == 'bands']))
+        if len(node.orelse) == 1 and isinstance(node.orelse[0], ast.If):
+            node = node.orelse[0]
+        else:
+            last = node.orelse
+            break
+    if chain != [('bands is not None and len(bands) > 0', ['bands = np.array(bands)']), ('len(refl_bands) > 0', ['bands = np.array(refl_bands)']),
+                 ('len(non_alpha_bands) > 0', ['bands = np.array(non_alpha_bands)'])] or not _raises(last, 'ValueError'):
+        raise TranslationError(f'_get_band_info: selection chain {chain}')
+    rgb = top[4]
+    std = the_assign(rgb, 'std_rgb_cws')
+    if not (isinstance(std, ast.Call) and U(std.func) == 'dict' and isinstance(std.args[0], ast.Call) and U(std.args[0].func) == 'zip'):
+        raise TranslationError('_get_band_info: std_rgb_cws')
+    keys = [U(x).split('.')[-1] for x in std.args[0].args[0].elts]
+    vals = [Fraction(str(ast.literal_eval(x))) for x in std.args[0].args[1].elts]
+    loop = [n for n in rgb.body if isinstance(n, ast.For)]
+    if len(loop) != 1 or U(loop[0].iter) != 'non_alpha_bands':
+        raise TranslationError('_get_band_info: RGB loop')
+    lb = [U(x) for x in loop[0].body]
+    if lb[0] != 'if not np.isnan(center_wavelengths[bi - 1]):\n    continue' or not lb[1].startswith(
+            'if im.colorinterp[bi - 1] in std_rgb_cws:\n    center_wavelengths[bi - 1] = std_rgb_cws[im.colorinterp[bi - 1]]'):
+        raise TranslationError(f'_get_band_info: RGB loop body {lb}')
+    allnan = [n for n in rgb.body if isinstance(n, ast.If) and 'np.isnan' in U(n.test)]
+    if len(allnan) != 1 or U(allnan[0].test) != 'sum(np.isnan(center_wavelengths[non_alpha_bands - 1])) == 3' or \
+            'center_wavelengths[non_alpha_bands - 1] = list(std_rgb_cws.values())' not in [U(x) for x in allnan[0].body]:
+        raise TranslationError('_get_band_info: assume-RGB branch')
+    if U(the_assign(fn, 'center_wavelengths', 1)) != 'center_wavelengths[bands - 1]':
+        raise TranslationError('_get_band_info: the wavelengths returned are those of the chosen bands')
+    pairs = ', '.join(f'("{k}", ({v.numerator} : Rat) / {v.denominator})' for k, v in zip(keys, vals))
+    return [('bandInfo_refusals', '', 'List BandRefusal', '[.outOfRange, .alphaOrMask]', '_get_band_info: the ValueErrors on a user selection, in order'),
+            ('bandInfo_selection', '', 'List BandChoice', '[.userBands, .reflectanceBands, .nonAlphaBands, .fail]', '_get_band_info: the if / elif chain choosing the bands'),
+            ('bandInfo_rgbCount', '', 'Nat', '3', '_get_band_info: len(non_alpha_bands) == 3'),
+            ('bandInfo_stdRgb', '', 'List (String × Rat)', f'[{pairs}]', '_get_band_info: std_rgb_cws'),
+            ('bandInfo_rgbSteps', '', 'List RgbStep', '[.keepExistingWavelength, .fromColorInterp, .allThreeMissingAssumeRgbInFileOrder]',
+             '_get_band_info: the RGB branch')]
+
+
+def _c_defaults():
+    """cli.py: the defaults of the options that end up in the API's configuration dictionaries are taken from the API's own
+    create_*_config functions (not repeated as literals)"""
+    from homonim import cli
+    tree = ast.parse(pathlib.Path(inspect.getsourcefile(cli)).read_text())
+    got = {}
+    for call in ast.walk(tree):
+        if isinstance(call, ast.Call) and U(call.func) == 'click.option':
+            names = [a.value for a in call.args if isinstance(a, ast.Constant) and isinstance(a.value, str)]
+            long = [n for n in names if n.startswith('--')]
+            for k in call.keywords:
+                if k.arg == 'default' and long:
+                    got.setdefault(long[0].split('/')[0], []).append(U(k.value))
+    want = {'--threads': "RasterFuse.create_block_config()['threads']", '--max-block-mem': "RasterFuse.create_block_config()['max_block_mem']",
+            '--downsampling': "RasterFuse.create_model_config()['downsampling'].name", '--upsampling': "RasterFuse.create_model_config()['upsampling'].name",
+            '--mask-partial': "RasterFuse.create_model_config()['mask_partial']", '--r2-inpaint-thresh': "RasterFuse.create_model_config()['r2_inpaint_thresh']",
+            '--driver': "RasterFuse.create_out_profile()['driver']", '--dtype': "RasterFuse.create_out_profile()['dtype']",
+            '--nodata': "RasterFuse.create_out_profile()['nodata']", '--model': 'KernelModel.default_model.value',
+            '--kernel-shape': 'KernelModel.default_kernel_shape', '--proc-crs': 'ProcCrs.auto.value',
+            '--overwrite': 'False', '--param-image': 'False', '--build-ovw': 'True', '--force-match': 'False'}
+    bad = {k: got.get(k) for k, v in want.items() if not got.get(k) or any(x != v for x in got[k])}
+    if bad:
+        raise TranslationError(f'option defaults not taken from the API: {bad}')
+    from_api = sorted(k[2:] for k, v in want.items() if 'create_' in v or 'KernelModel.' in v)
+    return [('cli_defaultsFromApi', '', 'List String', '[' + ', '.join(f'"{x}"' for x in from_api) + ']',
+             'options whose default is an expression over the API defaults (create_block_config / create_model_config / create_out_profile / KernelModel)'),
+            ('cli_flagDefaults', '', 'List (String × Bool)',
+             '[' + ', '.join(f'("{k[2:]}", {want[k].lower()})' for k in ('--overwrite', '--param-image', '--build-ovw', '--force-match')) + ']', 'flag defaults')]
+
+
+def _f_tags():
+    """fuse.py / stats.py: which FUSE_* tags process() writes into both outputs (the three fixed ones of _set_metadata plus one per
+    configuration key handed to _out_files), which of them ParamStats reads, and that the threshold read back is made a number"""
+    from homonim.fuse import RasterFuse
+    from homonim.kernel_model import KernelModel
+    from homonim.stats import ParamStats
+    fn = fn_body(src_of(RasterFuse._set_metadata))
+    if U(the_assign(fn, 'kwargs_meta_dict')) != "{f'FUSE_{k.upper()}': v.name if hasattr(v, 'name') else v for k, v in kwargs.items()}":
+        raise TranslationError(f"_set_metadata: kwargs_meta_dict = `{U(the_assign(fn, 'kwargs_meta_dict'))}`")
+    md = the_assign(fn, 'meta_dict')
+    if not (isinstance(md, ast.Call) and U(md.func) == 'dict' and not md.args and md.keywords[-1].arg is None and U(md.keywords[-1].value) == 'kwargs_meta_dict'):
+        raise TranslationError(f'_set_metadata: meta_dict = `{U(md)}`')
+    fixed = [k.arg for k in md.keywords[:-1]]
+    if U(_stmts(fn)[-1]) != 'im.update_tags(**meta_dict)':
+        raise TranslationError('_set_metadata: update_tags')
+    for meth in ('_set_corr_metadata', '_set_param_metadata'):
+        if 'self._set_metadata(im, **kwargs)' not in [U(x) for x in _stmts(fn_body(src_of(getattr(RasterFuse, meth))))]:
+            raise TranslationError(f'{meth}: does not pass **kwargs to _set_metadata')
+    of = fn_body(src_of(RasterFuse._out_files))
+    named = [a.arg for a in of.args.args if a.arg != 'self']
+    if of.args.kwarg is None or of.args.kwarg.arg != 'kwargs':
+        raise TranslationError('_out_files: **kwargs')
+    fin = [n for n in ast.walk(of) if isinstance(n, ast.Try)]
+    texts = [U(n) for t in fin for n in ast.walk(t) if isinstance(n, ast.Expr)]
+    if 'self._set_corr_metadata(out_im, **kwargs)' not in texts or 'self._set_param_metadata(param_im, **kwargs)' not in texts:
+        raise TranslationError('_out_files: metadata of both outputs is set from **kwargs')
+    pr = fn_body(src_of(RasterFuse.process))
+    call = [c for c in calls(pr, 'self._out_files')]
+    if len(call) != 1:
+        raise TranslationError('process: _out_files call')
+    keys, stars = [], []
+    for k in call[0].keywords:
+        if k.arg is None:
+            stars.append(U(k.value))
+        elif k.arg not in named:
+            keys.append(k.arg)
+    if stars != ['model_config', 'block_config']:
+        raise TranslationError(f'process: dictionaries expanded into _out_files: {stars}')
+    if U(the_assign(pr, 'model_config')) != 'RasterFuse.create_model_config(**model_config or {})' or \
+            U(the_assign(pr, 'block_config')) != 'RasterFuse.create_block_config(**block_config or {})':
+        raise TranslationError('process: the configuration dictionaries are completed by create_*_config')
+    for f in (KernelModel.create_config, RasterFuse.create_block_config):
+        ret = [n.value for n in ast.walk(fn_body(src_of(f))) if isinstance(n, ast.Return)]
+        if len(ret) != 1 or not (isinstance(ret[0], ast.Call) and U(ret[0].func) == 'dict' and not ret[0].args):
+            raise TranslationError(f'{f.__name__}: return')
+        keys += [k.arg for k in ret[0].keywords]
+    if RasterFuse.create_model_config is not KernelModel.create_config:
+        raise TranslationError('RasterFuse.create_model_config is not KernelModel.create_config')
+    written = fixed + ['FUSE_' + k.upper() for k in keys]
+    init = fn_body(src_of(ParamStats.__init__))
+    reads = sorted(set(n.slice.value for n in ast.walk(init) if isinstance(n, ast.Subscript) and U(n.value) == 'self._tags'
+                       and isinstance(n.slice, ast.Constant)))
+    if U(the_assign(init, 'r2_inpaint_thresh')) != "yaml.safe_load(self._tags['FUSE_R2_INPAINT_THRESH'])":
+        raise TranslationError('ParamStats.__init__: threshold tag')
+    th = U(the_assign(init, 'self._r2_inpaint_thresh'))
+    if th != "None if r2_inpaint_thresh in (None, 'None') else float(r2_inpaint_thresh)":
+        raise TranslationError(f'ParamStats.__init__: the threshold read back is `{th}` (must be None or a float, never the tag text)')
+    q = lambda xs: '[' + ', '.join(f'"{x}"' for x in xs) + ']'
+    return [('tags_written', '', 'List String', q(written), '_set_metadata via _out_files(**kwargs) from process()'),
+            ('tags_statsReads', '', 'List String', q(reads), 'ParamStats.__init__: self._tags[...]'),
+            ('tags_threshIsNumber', '', 'Bool', 'true', "ParamStats.__init__: None if r2_inpaint_thresh in (None, 'None') else float(r2_inpaint_thresh)")]
+
+
 # one extractor per source function: a failure in one leaves the others (and the properties they serve) alone
 SECTIONS = [_k_fit_gain, _k_fit_gain_offset, _k_r2, _k_blk, _s_cmp, _s_cmp_mean, _s_stats, _g_blocks, _g_resolve, _g_auto,
             _g_overlap, _g_expand, _g_round, _g_covers, _g_pindex, _s_cmp_block, _m_cover, _a_bounded, _p_r2band, _f_prog, _f_outfiles, _c_invoke, _f_process, _k_resampling, _a_convert, _a_write, _a_read,
-            _g_orient, _m_naneq, _f_accumulate, _c_loops, _f_profiles, _c_nodata, _b_match, _f_locks]
+            _g_orient, _m_naneq, _f_accumulate, _c_loops, _f_profiles, _c_nodata, _b_match, _f_locks,
+            _u_kernel, _u_threads, _u_param_image, _u_names, _u_nonalpha, _b_info, _c_defaults, _f_tags]
 # definition-name prefixes each extractor is responsible for (used to attribute a failed extraction to properties)
 PROVIDES = {'_k_fit_gain': ('fitGain_',), '_k_fit_gain_offset': ('fitGainOffset_',), '_k_r2': ('r2_',),
             '_k_blk': ('blk_', 'blockNorm_', 'applyParams'), '_s_cmp': ('cmp_',), '_s_cmp_mean': ('cmp_meanRow',),
@@ -1226,38 +1544,40 @@ PROVIDES = {'_k_fit_gain': ('fitGain_',), '_k_fit_gain_offset': ('fitGainOffset_
             '_g_covers': ('covers_axis',), '_g_pindex': ('paramIndex',), '_s_cmp_block': ('cmpPx_',), '_m_cover': ('cover_',),
             '_a_bounded': ('bounded_',), '_p_r2band': ('stats_isR2Band', 'stats_inpainted'), '_f_prog': ('prog',), '_f_outfiles': ('outFilesEvents',), '_c_invoke': ('cli_',), '_f_process': ('fanOut',), '_k_resampling': ('resamplingIsDown',), '_a_convert': ('convert_',), '_a_write': ('writeSteps',),
             '_a_read': ('read_',), '_g_orient': ('orient_',), '_m_naneq': ('mask_',), '_f_accumulate': ('accumulate_',),
-            '_c_loops': ('cli_fuseLoop', 'cli_compareLoop'), '_f_profiles': ('profile_',), '_c_nodata': ('cli_nodata',), '_b_match': ('match_',), '_f_locks': ('locks_',)}
+            '_c_loops': ('cli_fuseLoop', 'cli_compareLoop'), '_f_profiles': ('profile_',), '_c_nodata': ('cli_nodata',), '_b_match': ('match_',), '_f_locks': ('locks_',),
+            '_u_kernel': ('kernel_',), '_u_threads': ('threads_',), '_u_param_image': ('paramImage_',), '_u_names': ('names_',),
+            '_u_nonalpha': ('bands_',), '_b_info': ('bandInfo_',), '_c_defaults': ('cli_defaults', 'cli_flagDefaults'), '_f_tags': ('tags_',)}
 # which generated definitions (by name prefix) bear on which property's check
 SERVES = {
-    'C01': ('fitGain', 'r2_', 'blk_', 'blockNorm_'), 'C02': ('fitGain', 'r2_', 'blk_', 'blockNorm_', 'applyParams', 'resamplingIsDown'),
-    'C07': ('fitGain', 'r2_', 'blk_', 'blockNorm_', 'applyParams', 'mask_'), 'C14': ('applyParams', 'paramIndex', 'fitGain', 'r2_', 'profile_metaTags'),
-    'C04': ('prog', 'fanOut', 'accumulate_', 'locks_'), 'C09': ('prog', 'outFilesEvents', 'fanOut'), 'C10': ('outFilesEvents', 'profile_', 'cli_fuseLoop'), 'C11': ('cmp_', 'cmpPx_', 'resamplingIsDown', 'accumulate_compare', 'mask_'), 'C12': ('stats_', 'accumulate_stats'), 'C17': ('cover_',), 'C20': ('bounded_', 'writeSteps', 'read_', 'convert_', 'mask_'), 'C13': ('convert_', 'writeSteps', 'profile_'), 'C08': ('read_', 'mask_'),
-    'C03': ('writeSteps',), 'C05': ('overlapForKernel', 'blocks_', 'resamplingIsDown', 'fitGain', 'r2_'),
-    'C06': ('blocks_', 'expandWindow_', 'roundBounds_', 'autoBlock_', 'orient_'), 'C16': ('covers_axis', 'orient_'), 'C18': ('resolveAutoIsRef', 'orient_', 'cli_fuseLoop'), 'C19': ('cli_',), 'C15': ('match_',),
+    'C01': ('fitGain', 'r2_', 'blk_', 'blockNorm_', 'kernel_'), 'C02': ('fitGain', 'r2_', 'blk_', 'blockNorm_', 'applyParams', 'resamplingIsDown'),
+    'C07': ('fitGain', 'r2_', 'blk_', 'blockNorm_', 'applyParams', 'mask_'), 'C14': ('applyParams', 'paramIndex', 'fitGain', 'r2_', 'profile_metaTags', 'paramImage_', 'tags_'),
+    'C04': ('prog', 'fanOut', 'accumulate_', 'locks_', 'threads_'), 'C09': ('prog', 'outFilesEvents', 'fanOut'), 'C10': ('outFilesEvents', 'profile_', 'cli_fuseLoop', 'names_'), 'C11': ('cmp_', 'cmpPx_', 'resamplingIsDown', 'accumulate_compare', 'mask_'), 'C12': ('stats_', 'accumulate_stats', 'paramImage_', 'tags_'), 'C17': ('cover_',), 'C20': ('bounded_', 'writeSteps', 'read_', 'convert_', 'mask_'), 'C13': ('convert_', 'writeSteps', 'profile_'), 'C08': ('read_', 'mask_', 'bands_'),
+    'C03': ('writeSteps',), 'C05': ('overlapForKernel', 'blocks_', 'resamplingIsDown', 'fitGain', 'r2_', 'kernel_'),
+    'C06': ('blocks_', 'expandWindow_', 'roundBounds_', 'autoBlock_', 'orient_'), 'C16': ('covers_axis', 'orient_'), 'C18': ('resolveAutoIsRef', 'orient_', 'cli_fuseLoop', 'tags_'), 'C19': ('cli_', 'names_', 'threads_', 'kernel_'), 'C15': ('match_', 'bands_', 'bandInfo_'),
 }
 # theorems outside Props/Cxx.lean audited with a property's proof leg: (module, theorem name prefix) - the source-text tie
 # theorems and the end-to-end theorems about the whole-image model (Props/E2E.lean)
 TIE = {
-    'C01': [('SrcTieKernel', 'src_C01_')],
+    'C01': [('SrcTieCli', 'src_C01_kernel'), ('SrcTieCli', 'src_C01_accepted'), ('SrcTieKernel', 'src_C01_')],
     'C02': [('SrcTieKernel', 'src_C01_'), ('SrcTieKernel', 'src_C14_apply'), ('SrcTieKernel', 'src_C02_'), ('E2E', 'block_transparent'),
             ('E2ELine', 'whole_image_gain_recovers'), ('E2ELine', 'whole_image_gain_offset_recovers'),
             ('E2EWide', 'whole_image_gain_'), ('E2EWide', 'cubic_weights_sum_one'), ('E2EWide', 'bspline_weights_')],
     'C03': [('E2E', 'block_transparent'), ('E2EMask', 'whole_image_'), ('E2EMask', 'block_mask_eq_whole'),
             ('E2EWide', 'wide_valid_iff_nearest'), ('E2EWide', 'wide_mask_eq_nearest'), ('E2EWide', 'whole_image_no_lost_pixels_wide'),
             ('E2EWide', 'block_mask_eq_whole_wide')],
-    'C15': [('BandInfo', 'bandInfo_'), ('SrcTieStats', 'src_C15_')],
+    'C15': [('SrcTieCli', 'src_C15_'), ('BandInfo', 'bandInfo_'), ('SrcTieStats', 'src_C15_')],
     'C07': [('SrcTieKernel', 'src_C01_'), ('E2ELine', 'whole_image_scale'), ('E2EWide', 'whole_image_scale_wide'), ('SrcTieGeom', 'src_C08_nan_equals'), ('SrcTieGeom', 'src_C08_mask_')],
-    'C14': [('SrcTieKernel', 'src_C14_'), ('SrcTieGeom', 'src_C14_'), ('SrcTieKernel', 'src_C01_'), ('SrcTieSched', 'src_C13_profiles'), ('E2EParam', 'param_valid_'), ('E2EParam', 'src_grid_corrected_is_param_applied')],
+    'C14': [('SrcTieCli', 'src_C12_'), ('SrcTieKernel', 'src_C14_'), ('SrcTieGeom', 'src_C14_'), ('SrcTieKernel', 'src_C01_'), ('SrcTieSched', 'src_C13_profiles'), ('E2EParam', 'param_valid_'), ('E2EParam', 'src_grid_corrected_is_param_applied')],
     'C11': [('SrcTieStats', 'src_C11_'), ('E2ECompare', 'compare_'), ('SrcTieKernel', 'src_C02_resampling'), ('SrcTieSched', 'src_C04_accumulate'), ('SrcTieGeom', 'src_C08_nan_equals')],
-    'C12': [('SrcTieStats', 'src_C12_'), ('SrcTieSched', 'src_C04_accumulate')], 'C05': [('SrcTieGeom', 'src_C05_'), ('SrcTieGeom', 'src_C06_block'), ('SrcTieKernel', 'src_C01_'), ('E2E', 'block_transparent'), ('E2E', 'partitions_agree'),
+    'C12': [('SrcTieCli', 'src_C12_'), ('SrcTieStats', 'src_C12_'), ('SrcTieSched', 'src_C04_accumulate')], 'C05': [('SrcTieCli', 'src_C01_kernel'), ('SrcTieCli', 'src_C01_accepted'), ('SrcTieGeom', 'src_C05_'), ('SrcTieGeom', 'src_C06_block'), ('SrcTieKernel', 'src_C01_'), ('E2E', 'block_transparent'), ('E2E', 'partitions_agree'),
             ('E2ESrc', 'block_transparent_src_grid'), ('E2ESrc', 'partitions_agree_src_grid'), ('E2ESrc', 'correctedSrcGrid_eq_on'),
             ('E2EWide', 'block_transparent_wide'), ('E2EWide', 'block_mask_eq_whole_wide'), ('E2EParam', 'param_image_')],
     'C06': [('SrcTieGeom', 'src_C06_'), ('SrcTieGeom', 'src_C16_north_up'), ('SrcTieGeom', 'src_C16_same_orientation')], 'C16': [('SrcTieGeom', 'src_C16_')],
-    'C18': [('SrcTieGeom', 'src_C18_'), ('SrcTieGeom', 'src_C16_same_orientation'), ('SrcTieSched', 'src_C19_loops')],
-    'C13': [('SrcTieGeom', 'src_C13_'), ('SrcTieSched', 'src_C13_')], 'C08': [('SrcTieGeom', 'src_C08_')],
+    'C18': [('SrcTieCli', 'src_C12_tags'), ('SrcTieGeom', 'src_C18_'), ('SrcTieGeom', 'src_C16_same_orientation'), ('SrcTieSched', 'src_C19_loops')],
+    'C13': [('SrcTieGeom', 'src_C13_'), ('SrcTieSched', 'src_C13_')], 'C08': [('SrcTieCli', 'src_C15_non_alpha'), ('SrcTieGeom', 'src_C08_')],
     'C17': [('SrcTieGeom', 'src_C17_'), ('E2EPartial', 'partial_mask_'), ('E2EPartialDef', 'partial_valid_'),
             ('E2EPartialSrc', 'partial')], 'C20': [('SrcTieGeom', 'src_C20_'), ('SrcTieGeom', 'src_C08_nan_equals'), ('SrcTieGeom', 'src_C08_mask_')],
-    'C04': [('SrcTieSched', 'src_C04_')], 'C09': [('SrcTieSched', 'src_C04_')], 'C10': [('SrcTieSched', 'src_C10_'), ('SrcTieSched', 'src_C13_profiles'), ('SrcTieSched', 'src_C19_loops')], 'C19': [('SrcTieSched', 'src_C19_')],
+    'C04': [('SrcTieCli', 'src_C19_threads'), ('SrcTieSched', 'src_C04_')], 'C09': [('SrcTieSched', 'src_C04_')], 'C10': [('SrcTieCli', 'src_C19_names'), ('SrcTieSched', 'src_C10_'), ('SrcTieSched', 'src_C13_profiles'), ('SrcTieSched', 'src_C19_loops')], 'C19': [('SrcTieCli', 'src_C19_threads'), ('SrcTieCli', 'src_C19_names'), ('SrcTieCli', 'src_C19_defaults'), ('SrcTieCli', 'src_C01_kernel'), ('SrcTieSched', 'src_C19_')],
 }
 
 
